@@ -275,7 +275,7 @@ def processed_steps(world, hist, pred, sid, node):
     out = []
     for i, e in enumerate(exp):
         why = e.get("why")
-        if why in ("returned", "assert", "exception", "notimpl", "interrupt", "skip-scenario",
+        if why in ("returned", "assert", "exception", "notimpl", "interrupt", "skip-scenario", "async-incomplete",
                    "converter-error", "no-definition", "before_step-failed", "after_step-failed"):
             out.append(i)
         elif why == "dry-run":
